@@ -69,6 +69,7 @@ RULE = (
     "non-trivial = >= 2 effective commits while >= 1 reader stayed open and a non-default policy "
     "was in force at a prune point, or an attack that exercised >= 20 distinct (class, method) "
     "pairs; distinct by SHA-1 of the case"
+    ' Rdataset objects handed to replace() are mutated by their owner after the transaction ends.'
 )
 ASSUMPTIONS = [
     "content model vlib/ref/zone_model.py and the canonical RDATA form (vlib/zoneutil.py) are the "
